@@ -2,7 +2,7 @@
 # tools/try_mutant.sh <dir with patch.diff [demo.py]> <Cxx> [Cyy ...]
 # Applies the patch to a scratch copy of /repo, confirms the demonstration (fails with, passes
 # without) and the pinned suite (same result), runs the given quick checks against the copy.
-D=$1; shift
+D=$(realpath $1); shift
 W=/var/tmp/mut.$$
 rsync -a --exclude .git /repo/ $W/
 if ! (cd $W && patch -p1 -s < $D/patch.diff); then echo "PATCH-FAILED $D"; rm -rf $W; exit 3; fi
